@@ -113,7 +113,11 @@ pub fn trivia_twin(src: &str, d: &Dumper, r: &mut Rng, stats: &mut Out) -> Strin
                 format!("{g}--[[ c ]] ")
             }
             4 => {
-                if g.contains('\n') && !g.contains("--") {
+                if g.contains('\n') && !g.contains("--") && r.chance(1, 2) {
+                    // an ordinary comment on a line of its own
+                    stats.bump("rewrite_comment_line");
+                    g.replacen('\n', "\n-- note\n", 1)
+                } else if g.contains('\n') && !g.contains("--") {
                     stats.bump("rewrite_blank_line");
                     g.replacen('\n', "\n\n", 1)
                 } else {
